@@ -77,10 +77,10 @@ var specs = []spec{
 	}},
 	{Out: "Erro", Arch: "amd64", Pkg: "./erro", Erro: true},
 	{Out: "SigSkeleton", Arch: "amd64", Pkg: "./internal/patch", Skeletons: []string{"SignatureEquals"}},
-	{Out: "ArgSkeleton", Arch: "amd64", Pkg: "./arg", Skeletons: []string{"I2V"}},
+	{Out: "ArgSkeleton", Arch: "amd64", Pkg: "./arg", Skeletons: []string{"I2V", "toValue", "V2I"}},
 	{Out: "MockerSkeleton", Arch: "amd64", Pkg: ".", Skeletons: []string{"DefMocker.Apply", "MethodMocker.Apply", "UnexportedMethodMocker.Apply",
 		"UnexportedFuncMocker.Apply", "DefaultInterfaceMocker.Apply", "baseMocker.applyByName", "baseMocker.applyByFunc", "baseMocker.applyByMethod",
-		"baseMocker.applyByIFaceMethod", "baseMocker.Cancel", "defaultVarMocker.Set", "defaultVarMocker.Apply", "defaultVarMocker.Cancel"}},
+		"baseMocker.applyByIFaceMethod", "baseMocker.Cancel", "defaultVarMocker.Set", "defaultVarMocker.Apply", "defaultVarMocker.Cancel", "defaultVarMocker.doSet"}},
 	{Out: "ArgPurity", Arch: "amd64", Pkg: "./arg", Pure: map[string][]string{
 		"arg_eval": {"*.Eval", "equal", "ExpandVariadic"},
 	}},
